@@ -132,13 +132,13 @@ def run(ctx):
     mons = [("mon_persist_diag", "list"), ("mon_reads_diag", "list"), ("mon_explained_diag", "list")]
     res = ec.run_engine_check(
         ctx,
-        profile=[("persist", 200, 4000), ("attempts", 60, 1000), ("mixed", 60, 1500), ("final", 48, 800), ("cont", 32, 500)],
+        profile=[("persist", 200, 8000), ("attempts", 60, 2000), ("mixed", 60, 3000), ("final", 48, 1500), ("cont", 32, 1000)],
         n_quick=0, n_thorough=0,
         extra_header="From Coercion.C08 Require Import MonC08.",
         monitors=mons,
         release_obligation=False,
         harness_args=["-poll"],
-        multi_quick=24, multi_thorough=400,
+        multi_quick=24, multi_thorough=600,
         proj="c08",
         rule_extra="Every trace carries EvRead snapshots of a poller (Workstream.Plan every ~200 us).",
         not_covered=NOT_COVERED,
